@@ -4,6 +4,10 @@ T_ = "cfdppy.handler.dest.LostSegmentTracker."
 PROPERTIES = {
     "C18": {
         "level": "proof",
+        "level_text": "Every method of LostSegmentTracker is proved, for all well-formed tracker states, offsets and range counts "
+                      "(no bound), to refine the exact interval set of the property; the invariant is inductive so it covers every operation history.",
+        "level_note": "Relative to pyvc's encoding of Python ints/dicts/tuples (dict(sorted(...)), dict(pairs), update/pop/get axioms), z3/cvc5, "
+                      "and the triggered view-predicate axiomatisation; removal ranges outside the property's precondition (covering more than one tracked range) are outside the contract.",
         "functions": [T_ + "reset", T_ + "num_lost_segments", T_ + "add_lost_segment",
                       T_ + "remove_lost_segment", T_ + "coalesce_lost_segments"],
         "explanation": "Every LostSegmentTracker method is verified against the abstract interval-set view "
@@ -16,3 +20,5 @@ PROPERTIES = {
         "trusted_base": [],
     },
 }
+
+NOT_APPLICABLE = {}
